@@ -287,6 +287,54 @@ def rule_r2c(F, rep):
     rep.trust("std::io::Stdout/Stderr treat EBADF as success (library/std/src/io/stdio.rs, handle_ebadf)")
 
 
+def rule_r6(F, rep):
+    R = rep.rule("C12.R6", "`--ext-str` / `--ext-code` / `--tla-*` arguments are split at the first `=`: with an `=` the value is "
+                 "the text after it — also when that text is empty — and only an argument without `=` falls back to the "
+                 "environment variable of that name")
+    fn = None
+    for f in F.fn_list:
+        if f.crate.name == "rsjsonnet" and f.q.endswith("VarOptVal as core::convert::From>::from"):
+            fn = f
+    if fn is None:
+        cands = [f for f in F.fn_list if f.crate.name == "rsjsonnet" and "VarOptVal" in f.q and f.q.endswith("::from")]
+        fn = cands[0] if cands else None
+    if fn is None:
+        rep.violation(R, "anchor|VarOptVal::from", "the var[=val] argument parser was not found (anchor)")
+        return
+    rep.fn(fn)
+    VOV = [q for q in F.adts if q.endswith("cli::VarOptVal")][0]
+    fields = [f["n"] for f in F.adt(VOV)["variants"][0]["fields"]]
+    vi = fields.index("val")
+    for has_eq in (0, 1):
+        def hook(w, bb, t, env, args, has_eq=has_eq):
+            n = callee_name(t) or ""
+            if n.endswith("<str>::split_once") or n == "core::str::<impl str>::split_once":
+                return ("var", "core::option::Option", "Some" if has_eq else "None")
+            return None
+
+        def on_stmt(w, bb, idx, st, env):
+            if st["k"] == "assign" and st["rv"]["k"] == "agg" and st["rv"]["ak"] == "adt" and st["rv"]["adt"] == VOV:
+                v = w.val(env, st["rv"]["xs"][vi])
+                return ("val", v[2] if isinstance(v, tuple) and v[0] == "var" else "?")
+            return None
+        w = kwalk.Walker(F, fn.body, call_result=hook, on_stmt=on_stmt, want_ret=False)
+        outs = w.run(0, {})
+        rep.states += w.states_explored
+        res = set()
+        for kind, marks, _ in outs:
+            if kind.startswith("diverge"):
+                continue
+            for m in marks:
+                if m[0] == "val":
+                    res.add(m[1])
+        exp = {"Some"} if has_eq else {"None"}
+        ok = res == exp
+        rep.ob(R, "VarOptVal|has_eq=%d" % has_eq, ok, {"argument_contains_=": bool(has_eq), "value": sorted(res)})
+        if not ok:
+            rep.violation(R, "VarOptVal::from|has_eq=%d" % has_eq, "an argument %s `=` yields value %s, expected %s (an explicit empty "
+                          "value must not fall back to the environment)" % ("with" if has_eq else "without", sorted(res), sorted(exp)), fn.loc)
+
+
 def rule_r4(F, rep):
     R = rep.rule("C12.R4", "usage errors (exit 2) come only from argument parsing and from the -S / -y conflict")
     sites = cg.who_constructs(F, "rsjsonnet::RunError", "Usage", crates=("rsjsonnet",))
@@ -375,6 +423,7 @@ def run(F, rep, tier):
     rule_r2(F, rep)
     rule_r2b(F, rep)
     rule_r2c(F, rep)
+    rule_r6(F, rep)
     from . import visibility
     visibility.rule(F, rep, "C07.R4")
     rule_r4(F, rep)
